@@ -1,4 +1,5 @@
 #include "runner.h"
+#include <cstdlib>
 #include <cstdio>
 #include <cstring>
 #include <stdexcept>
@@ -15,6 +16,8 @@ extern "C" __attribute__((used, visibility("default"))) const char* __ubsan_defa
 namespace sim { void installProcessHandlers(); }
 
 int main(int argc, char** argv) {
+	// the locale a run sees is part of its plan (os.LANG=..., clocale=...), never inherited from whoever started the check
+	for (const char* k : {"LANG", "LANGUAGE", "LC_ALL", "LC_CTYPE", "LC_COLLATE", "LC_MESSAGES", "LC_NUMERIC", "LC_TIME", "LC_MONETARY"}) unsetenv(k);
 	try {
 		if (argc < 2) {
 			fprintf(stderr, "usage: simrun run --property Cxx --tier quick|thorough [...] | replay <file> [--trace] | gen --property P --family F --index i [--tier t] [--seed s] | families\n");
